@@ -720,9 +720,10 @@ func runC03(c *Ctx) int {
 		c.Inconclusive(fmt.Sprintf("porcupine timed out on %d histories", inconclusivePorc))
 	}
 	cov := map[string]any{
-		"evaluations":                 roundsRun,
+		"evaluations":                 tot.Bodies + tot.Reads,
+		"rounds":                      roundsRun,
 		"distinct_nontrivial":         len(sit) + min(roundsRun, tot.Overlaps/1000),
-		"rule":                        "each round: 2/4/8/16/32 goroutines mix Update, Begin..Commit/Rollback, Batch, View, Stats (and in a quarter of the processes a Close racing with everything) on a counter X, a list L and 3 registers; a seeded 30% of the write bodies return an error, panic or roll back; seeded delays at the verifYield points; every body bumps an in-writer gauge (must never exceed 1), reads X, writes X+1 and L+uid; snapshots assert X == len(L). Offline on the recorded history: committed bodies saw 0..n-1 exactly once, id order == commit order, distinct committed ids consecutive, real-time order, a reader's id determines the counter it sees, final state == serial replay with no effect of a failed body; the register history is checked for linearizability with porcupine (independent of ids). Run under the race detector (any report is a violation); lost wake-ups by a quiescence detector (all workers parked, no progress in successive snapshots). A round is non-trivial if operations overlapped in time; distinct_nontrivial counts distinct (goroutines, overlap, shared-batch, failure-mix) situations plus 1 per 1000 overlapping operation pairs (capped by rounds).",
+		"rule":                        "evaluations = write bodies + snapshot reads judged; each round: 2/4/8/16/32 goroutines mix Update, Begin..Commit/Rollback, Batch, View, Stats (and in a quarter of the processes a Close racing with everything) on a counter X, a list L and 3 registers; a seeded 30% of the write bodies return an error, panic or roll back; seeded delays at the verifYield points; every body bumps an in-writer gauge (must never exceed 1), reads X, writes X+1 and L+uid; snapshots assert X == len(L). Offline on the recorded history: committed bodies saw 0..n-1 exactly once, id order == commit order, distinct committed ids consecutive, real-time order, a reader's id determines the counter it sees, final state == serial replay with no effect of a failed body; the register history is checked for linearizability with porcupine (independent of ids). Run under the race detector (any report is a violation); lost wake-ups by a quiescence detector (all workers parked, no progress in successive snapshots). A round is non-trivial if operations overlapped in time; distinct_nontrivial counts distinct (goroutines, overlap, shared-batch, failure-mix) situations plus 1 per 1000 overlapping operation pairs (capped by rounds).",
 		"samples":                     samples,
 		"write_bodies":                tot.Bodies,
 		"committed_bodies":            tot.Committed,
